@@ -43,6 +43,8 @@ pub type Tagged {
 }
 pub type Bx<a> { Bx(a) Hollow }
 pub type Duo<a, b> { left: a, right: b }
+pub type Through<a> { inner: Bx<a>, note: ByteArray }
+pub type Through2<a, b> { swapped: Duo<b, a>, items: List<Bx<a>> }
 @tag(9)
 pub type Finally { yes: Int }
 @list
@@ -62,7 +64,9 @@ TYPES = ["Int", "ByteArray", "Bool", "Data", "Colour", "Shape", "Acc", "Wrap", "
          "Duo<Int, ByteArray>", "Duo<ByteArray, Int>", "Duo<Bx<Int>, Bx<Bool>>", "Duo<Bx<Bool>, Bx<Int>>", "Option<(Int, ByteArray)>", "List<(ByteArray, Colour)>",
          # ... and both instantiations inside ONE value, so that one generated program needs both decoders
          "Duo<Bx<(Int, Int)>, Bx<(Int, ByteArray)>>", "Duo<Bx<Pair<Int, Int>>, Bx<Pair<Int, ByteArray>>>", "Duo<Bx<List<Int>>, Bx<List<ByteArray>>>",
-         "(Option<(Int, Int)>, Option<(Int, ByteArray)>)", "Duo<Bx<Int>, Bx<ByteArray>>", "(Bx<Bool>, Bx<Int>, Bx<Colour>)"]
+         "(Option<(Int, Int)>, Option<(Int, ByteArray)>)", "Duo<Bx<Int>, Bx<ByteArray>>", "(Bx<Bool>, Bx<Int>, Bx<Colour>)",
+         # a type parameter passed through to another generic type
+         "Through<Int>", "Through<ByteArray>", "Through<(Int, Int)>", "Through2<Int, ByteArray>", "Through2<Colour, Int>"]
 
 
 def module_source():
